@@ -105,18 +105,19 @@ type PlayerSpec struct {
 }
 
 type Config struct {
-	Seats      int
-	Rule       string
-	Mode       string
-	MinPlayers int
-	Blind      pokertable.TableBlindState
-	ActionTime int
-	Interval   int
-	Players    []PlayerSpec
-	ViaCreate  bool // initial players passed in CreateTable.JoinPlayers
-	ViaManager bool // route all calls through a Manager (C17 facade)
-	WrapSM     bool // install recording seat-manager decorator
-	NativeDeck bool // do not control the deck
+	Seats       int
+	Rule        string
+	Mode        string
+	MinPlayers  int
+	Blind       pokertable.TableBlindState
+	ActionTime  int
+	Interval    int
+	MaxDuration int // seconds the table auto-opens hands for (CT / cash); 0 = practically unlimited
+	Players     []PlayerSpec
+	ViaCreate   bool // initial players passed in CreateTable.JoinPlayers
+	ViaManager  bool // route all calls through a Manager (C17 facade)
+	WrapSM      bool // install recording seat-manager decorator
+	NativeDeck  bool // do not control the deck
 }
 
 func (c Config) String() string {
@@ -323,6 +324,13 @@ func cloneTable(t *pokertable.Table) (*pokertable.Table, []byte) {
 
 // New creates the engine and the table. Initial players are seated according
 // to cfg (through CreateTable or PlayerReserve) and joined when spec.Join.
+func maxDuration(cfg Config) int {
+	if cfg.MaxDuration > 0 {
+		return cfg.MaxDuration
+	}
+	return 100000000
+}
+
 func New(ch *choose.Recorder, cfg Config, hooks Hooks) *Sim {
 	s := &Sim{Ch: ch, Cfg: cfg, Hooks: hooks, q: newQueue(), StepWait: 6 * time.Second, LabelSet: map[string]bool{}}
 	s.BE = backend.New()
@@ -409,7 +417,7 @@ func New(ch *choose.Recorder, cfg Config, hooks Hooks) *Sim {
 			CompetitionID:       "comp",
 			Rule:                cfg.Rule,
 			Mode:                cfg.Mode,
-			MaxDuration:         100000000,
+			MaxDuration:         maxDuration(cfg),
 			TableMaxSeatCount:   cfg.Seats,
 			TableMinPlayerCount: cfg.MinPlayers,
 			MinChipUnit:         1,
